@@ -425,6 +425,19 @@ def path_assumes(path):
     return d
 
 
+def path_assumes_after(path, ev):
+    """Assumptions made on the part of the path that follows event ev (its own block's outgoing edge included)."""
+    d = {}
+    seen = False
+    for (b, at) in path:
+        if b == ev.block.id:
+            seen = True
+        if seen:
+            for (a, p) in at:
+                d.setdefault(a, p)
+    return d
+
+
 def fmt_path(fn, path, limit=40):
     parts = []
     for (bid, at) in path:
